@@ -14,6 +14,8 @@ RULE = ("every job set of 2 create_db processes sharing one temp directory: ALL 
         "(deviation) bound. All processes are fed the same temp-name sequence so name collisions are forced. Non-trivial = the schedule "
         "has at least one context switch between the first and last point of some process")
 ASSUMPTIONS = [
+    "for the pair importing the same text as a string, the first write into a file in the shared directory is split in two with a "
+    "scheduling point in between (a concurrent reader may see a half-written file); all other writes are taken as atomic",
     "exactly one process runs between scheduling points (controller-serialised); atomicity of open(O_EXCL), unlink and of sqlite's file locking is trusted",
     "2 and 3 processes; more processes than cores and truly simultaneous system calls are not explored",
     "deviation bound = number of non-canonical picks (pre-emptions, plus picking a non-lowest process after an exit)",
@@ -52,13 +54,14 @@ JOBS = {
     "gffB_url": ("url", GFF_B),              # input given as a file:// URL
 }
 EXPECT_FAIL = {"gffDUP"}
+SETS2T = [("gffA_str", "gffA_str")]          # explored with torn first writes, within a pre-emption bound
 SETS2 = [("gffDUP", "gffB"), ("gtfA_noinfer", "gffA"), ("gffA", "gffA"), ("gffA", "gffB"), ("gffA", "gtfA"), ("gtfA", "gtfB"), ("gtfA", "gtfA"), ("gffB", "gffA_str"), ("gtfC", "gffB"), ("gtfA", "gffA_force"), ("gffB_url", "gffA")]
 SETS3 = [("gffA", "gtfA", "gffB"), ("gtfA", "gtfC", "gtfB"), ("gffA", "gffA", "gffA")]
 READERS = [2, 3]
 
 
 def dev_bound(tier):
-    return dict(imports3=1 if tier == "quick" else 2, readers2=1 if tier == "quick" else 3, readers3=1 if tier == "quick" else 2)
+    return dict(imports2torn=2 if tier == "quick" else 3, imports3=1 if tier == "quick" else 2, readers2=1 if tier == "quick" else 3, readers3=1 if tier == "quick" else 2)
 
 
 def bounds(tier):
@@ -149,7 +152,9 @@ def run_imports(ch, ctx, jobs):
         out = os.path.join(outdir, "job%d" % i, "annotation.db")
         outs.append(out)
         fns.append(make_import(JOBS[j][0], JOBS[j][1], out, indir, i))
-    children, schedule, stats = sched.run_schedule(ch, fns, shared)
+    # two imports of the SAME text given as a string: also explore torn first writes into the shared directory
+    torn = tuple(jobs) == ("gffA_str", "gffA_str")
+    children, schedule, stats = sched.run_schedule(ch, fns, shared, torn_writes=torn)
     sig = dict(jobs="+".join(jobs))
     ctx.check(not pre, "temp-files-left-behind", dict(sig, only_from_string_copies=False, by="solitary warm-up import"), left=pre)
     interleaved = stats["switches"] > len(jobs) - 1 or len(jobs) == 1
@@ -218,7 +223,9 @@ def run_readers(ch, ctx, n):
 
 def shards(tier):
     # the shard fixes the first two scheduling decisions (parallelism across workers)
-    out = [("imports2", s, (a, b)) for s in SETS2 for a in (0, 1) for b in (0, 1)]
+    sets2 = [x for x in SETS2 if tier != "quick" or x not in (("gtfA", "gtfA"), ("gtfA", "gtfB"))]     # quick drops two GTF/GTF pairs
+    out = [("imports2", s, (a, b)) for s in sets2 for a in (0, 1) for b in (0, 1)]
+    out += [("imports2torn", s, (a, b)) for s in SETS2T for a in (0, 1) for b in (0, 1)]
     out += [("imports3", s, (a, b)) for s in SETS3 for a in (0, 1, 2) for b in (0, 1, 2)]
     out += [("readers", n, (a, b)) for n in READERS for a in range(n) for b in range(n)]
     out.append(("imports1", ("gffBIG",), ()))
@@ -267,6 +274,7 @@ def run(tier, seed):
     allsh = shards(tier)
     groups = [
         ("imports2", [s for s in allsh if s[0] in ("imports2", "imports1")], None),
+        ("imports2torn", [s for s in allsh if s[0] == "imports2torn"], b["imports2torn"]),
         ("imports3", [s for s in allsh if s[0] == "imports3"], b["imports3"]),
         ("readers2", [s for s in allsh if s[0] == "readers" and s[1] == 2], b["readers2"]),
         ("readers3", [s for s in allsh if s[0] == "readers" and s[1] == 3], b["readers3"]),
